@@ -50,7 +50,7 @@ func NewPriorityQueue(lessFn common_info.LessFn, maxQueueSize int) *PriorityQueu
 func (q *PriorityQueue) Push(it interface{}) {
 	heap.Push(&q.queue, it)
 	if q.maxQueueSize != QueueCapacityInfinite && q.queue.Len() > q.maxQueueSize {
-		heap.Remove(&q.queue, q.maxQueueSize)
+		heap.Remove(&q.queue, q.queue.lowestPriorityIndex())
 	}
 }
 
@@ -91,6 +91,18 @@ func (pq *priorityQueue) Less(i, j int) bool {
 
 	// We want Pop to give us the highest, not lowest, priority so we use greater than here.
 	return pq.lessFn(pq.items[i], pq.items[j])
+}
+
+// lowestPriorityIndex returns the index of the item that would be popped last: the one to drop
+// when a bounded queue overflows (the last slot of the heap array is a leaf, not necessarily that item).
+func (pq *priorityQueue) lowestPriorityIndex() int {
+	lowest := 0
+	for i := 1; i < len(pq.items); i++ {
+		if pq.Less(lowest, i) {
+			lowest = i
+		}
+	}
+	return lowest
 }
 
 func (pq priorityQueue) Swap(i, j int) {
